@@ -34,6 +34,9 @@ func mask(t string) uint64 {
 
 // ValCfg bounds the value generator.
 type ValCfg struct {
+	// KeyPick >= 0: the top-level packet's match fields take their (KeyPick mod n)-th key, so
+	// that consecutive messages walk through the table; < 0: drawn at random
+	KeyPick int
 	MaxList  int // typical list length bound
 	LongList bool
 	MaxStr   int
@@ -121,8 +124,27 @@ func genPacketVal(t *rapid.T, p *Program, k *Packet, vc ValCfg, label string, de
 	pick := map[string]Pair{}
 	for _, f := range k.Fields {
 		if f.Kind == KMatch {
-			pr := f.Pairs[rapid.IntRange(0, len(f.Pairs)-1).Draw(t, label+"."+f.Name+"_pair")]
-			ks := pr.Keys[rapid.IntRange(0, len(pr.Keys)-1).Draw(t, label+"."+f.Name+"_key")]
+			var pr Pair
+			var ks string
+			if depth == 0 && vc.KeyPick > 0 {
+				var all []struct {
+					p Pair
+					k string
+				}
+				for _, p0 := range f.Pairs {
+					for _, k0 := range p0.Keys {
+						all = append(all, struct {
+							p Pair
+							k string
+						}{p0, k0})
+					}
+				}
+				pick := all[(vc.KeyPick-1)%len(all)]
+				pr, ks = pick.p, pick.k
+			} else {
+				pr = f.Pairs[rapid.IntRange(0, len(f.Pairs)-1).Draw(t, label+"."+f.Name+"_pair")]
+				ks = pr.Keys[rapid.IntRange(0, len(pr.Keys)-1).Draw(t, label+"."+f.Name+"_key")]
+			}
 			keyVal[f.Key] = ks
 			pick[f.Name] = pr
 		}
